@@ -288,7 +288,18 @@ func (x *parserExec) added(n int) {
 }
 
 func (x *parserExec) doWrite(op POp) {
-	p := cloneBytes(op.Data)
+	// The caller's slice has spare capacity in three of four cases (a piece
+	// of a larger I/O buffer): op.Cap, or 0/7/8/64 chosen by a hash of the length of the data.
+	extra := op.Cap
+	if extra == 0 {
+		extra = []int{7, 0, 8, 64}[(uint32(len(op.Data))*2654435761>>13)%4]
+	}
+	whole := make([]byte, len(op.Data)+extra)
+	copy(whole, op.Data)
+	for i := len(op.Data); i < len(whole); i++ {
+		whole[i] = 0x5c ^ x.capFillXor
+	}
+	p := whole[:len(op.Data)]
 	if len(op.Data) == 0 {
 		p = nil
 		if op.Empty {
@@ -314,8 +325,8 @@ func (x *parserExec) doWrite(op POp) {
 	}
 	// The slice is the caller's again: whatever is written into it now must
 	// not show up in the parser (Write copies).
-	for i := range p {
-		p[i] = 0xee
+	for i := range whole {
+		whole[i] = 0xee
 	}
 	if n != wantN || err != wantErr {
 		x.report("C15", "Write(%d bytes) with %d of %d bytes buffered = (%d, %s); want (%d, %s)",
